@@ -85,10 +85,51 @@ def reference_views():
     return views
 
 
+# which of the repairs of /verif/fixes/C14_*.patch the current source has: detected on every run from the
+# handler's behaviour on these probe statements (bit i of FIXBITS = fx_of_bits in SqlAst/Model.v)
+PROBES = [
+    ("header-cte-names-same-pattern", "WITH\nvq9 AS (SELECT 1 AS one) SELECT * FROM vq9", "db1"),
+    ("dedup-refs-exact-case", "SELECT a.id FROM cpu a JOIN CPU b ON a.id = b.id", "db1"),
+    ("table-position-scanner", 'SELECT 1 FROM db1.cpu UNION ALL TABLE "a/b"', ""),
+    ("io-denylist-sql-text-functions", "SELECT * FROM query('SELECT 1')", ""),
+    ("no-raw-text-fast-paths", "SELECT 1 -- read_parquet", ""),
+    ("reject-backslash-before-quote", "SELECT 'a\\' , 'b'", ""),
+]
+FIXBITS = 0
+
+
+def detect_fixes(outs):
+    o = outs
+    bits = 0
+    if o[0].get("executed") is not None and "read_parquet" not in o[0]["executed"]:
+        bits |= 1
+    if len(o[1].get("checked") or []) == 2:
+        bits |= 2
+    if o[2].get("status") == 400 and "Quoted identifier in table position" in (o[2].get("err") or ""):
+        bits |= 4
+    if o[3].get("status") == 400 and "File I/O function" in (o[3].get("err") or ""):
+        bits |= 8
+    if o[4].get("executed") is not None and o[4]["executed"] != PROBES[4][1]:
+        bits |= 16
+    if o[5].get("status") == 400 and "Backslash before a quote" in (o[5].get("err") or ""):
+        bits |= 32
+    return bits
+
+
+def fix_names(bits=None):
+    bits = FIXBITS if bits is None else bits
+    return [PROBES[i][0] for i in range(len(PROBES)) if bits >> i & 1]
+
+
 def run_cases(pid, cases, tag, files=None, views=None, timeout=2400):
+    """runs the cases (plus the probe statements) through the harness; sets FIXBITS"""
+    global FIXBITS
+    probes = [mk_case(sql, hdr, allow=["*"], reads=False) for _, sql, hdr in PROBES]
     inp = {"files": files if files is not None else dataset_files(), "measures": measures(), "markers": markers(),
-           "views": views or [], "cases": cases}
-    return vlib.run_go_harness(pid, PKG, TEST, HARNESS, inp, tags=TAGS, timeout=timeout, tag=tag)
+           "views": views or [], "cases": probes + list(cases)}
+    outs = vlib.run_go_harness(pid, PKG, TEST, HARNESS, inp, tags=TAGS, timeout=timeout, tag=tag)
+    FIXBITS = detect_fixes(outs[:len(probes)])
+    return outs[len(probes):]
 
 
 def mk_case(sql, hdr="", ep="query", allow=("db1",), reads=True, ref=False, twice=False):
@@ -104,6 +145,7 @@ REJECTS = [
     (4, "Dangerous SQL operation not allowed"), (5, "File I/O function not allowed in user SQL: "),
     (6, "String literal not allowed in table position"), (7, "Quoted identifier in table position is not a valid"),
     (8, "invalid x-arc-database header"), (9, "Cross-database queries"), (10, "invalid database name"),
+    (11, "Backslash before a quote is not supported"),
 ]
 
 
@@ -157,8 +199,8 @@ def model_sql(sql):
 def gate_term(case, cl):
     chk = "[" + "; ".join("(%s, %s)" % (hx(a), hx(b)) for a, b in cl["checked"]) + "]"
     ex = "None" if cl["executed"] is None else "(Some %s)" % hx(cl["executed"])
-    return ("{| g_sql := %s; g_hdr := %s; g_kind := %d; g_code := %d; g_name := %s; g_checked := %s; g_exec := %s |}"
-            % (hx(model_sql(case["sql"])), hx(case["hdr"]), max(cl["kind"], 0) if cl["kind"] >= 0 else 99, cl["code"],
+    return ("{| g_fix := %d; g_sql := %s; g_hdr := %s; g_kind := %d; g_code := %d; g_name := %s; g_checked := %s; g_exec := %s |}"
+            % (FIXBITS, hx(model_sql(case["sql"])), hx(case["hdr"]), max(cl["kind"], 0) if cl["kind"] >= 0 else 99, cl["code"],
                hx(cl["name"]), chk, ex))
 
 
@@ -233,7 +275,7 @@ def read_term(case, cl, reads):
 
 
 def case_line(case, cl, reads):
-    f = [hexs(model_sql(case["sql"])), hexs(case["hdr"]), str(cl["kind"] if cl["kind"] >= 0 else 99), str(cl["code"]), hexs(cl["name"]),
+    f = [str(FIXBITS), hexs(model_sql(case["sql"])), hexs(case["hdr"]), str(cl["kind"] if cl["kind"] >= 0 else 99), str(cl["code"]), hexs(cl["name"]),
          "!" if cl["executed"] is None else hexs(cl["executed"])]
     for lst in (cl["checked"], reads, MEASUREMENTS):
         f.append(str(len(lst)))
@@ -767,7 +809,7 @@ UNSUPPORTED = [
     ("comma-join-item-unrewritten", "SELECT a.id, b.id FROM cpu a, mem b WHERE a.id = b.id", ["", "db1"]),
     ("read-parquet-text-disables-rewrite", "SELECT id FROM cpu WHERE tag <> 'read_parquet'", ["", "db1"]),
     ("read-parquet-text-disables-rewrite", "SELECT id /* read_parquet */ FROM cpu", ["db1"]),
-    ("header-cte-names-need-with-blank", "WITH\nc1 AS (SELECT 1 AS id) SELECT * FROM c1", ["db1"]),
+    ("header-cte-names-differ-from-permission-check", "WITH\nc1 AS (SELECT 1 AS id) SELECT * FROM c1", ["db1"]),
     ("cte-scope-blind", "SELECT q.id FROM (WITH cpu AS (SELECT 1 AS id) SELECT * FROM cpu) q JOIN cpu USING (id)", ["", "db1"]),
     ("join-lateral-newline-takes-lateral-as-table", "SELECT a.id FROM cpu a CROSS JOIN LATERAL\n(SELECT 1 AS one) b", ["", "db1"]),
     ("skip-prefix-measurement-name", "SELECT * FROM pg_metrics", ["db1"]),
